@@ -66,15 +66,11 @@ func c02Ownership(p *Prog, r *Report) {
 func c02StreamAlloc(p *Prog, r *Report) {
 	const rule = "C02.stream-alloc"
 	r.Rule(rule, "store(): the id received from the free list is the key of pending.Store and the result, -1 when the list is empty; loadAndDelete(): the id goes back to the free list, and the request is returned, only when LoadAndDelete removed the entry for that same id; the free list is created with capacity max and filled with 0..max-1")
-	pr := p.Named("proxycore", "pendingRequests")
 	streamsF := p.Field("proxycore", "pendingRequests", "streams")
 	pendingF := p.Field("proxycore", "pendingRequests", "pending")
 	// ---- store
 	{
-		fn := p.methodOf(pr, "store")
-		if fn == nil {
-			fatalf("anchor: pendingRequests.store not found")
-		}
+		fn := getPendingRoles(p).store
 		var bad []string
 		var sel *ssa.Select
 		eachInstr(fn, func(in ssa.Instruction) {
@@ -141,10 +137,7 @@ func c02StreamAlloc(p *Prog, r *Report) {
 	}
 	// ---- loadAndDelete
 	{
-		fn := p.methodOf(pr, "loadAndDelete")
-		if fn == nil {
-			fatalf("anchor: pendingRequests.loadAndDelete not found")
-		}
+		fn := getPendingRoles(p).loadAndDelete
 		var bad []string
 		var lad *ssa.Call
 		eachCall(fn, func(c ssa.CallInstruction) {
@@ -257,7 +250,7 @@ func c02StreamAlloc(p *Prog, r *Report) {
 	{
 		cc := p.Named("proxycore", "ClientConn")
 		send := p.methodOf(cc, "Send")
-		add := p.FuncOpt("proxycore", "(*ClientConn).addToPending")
+		add := getPendingRoles(p).register
 		var bad []string
 		lits := structLits(send, func(t types.Type) bool { return typeIs(t, "proxycore", "requestSender") })
 		if len(lits) != 1 {
@@ -265,7 +258,17 @@ func c02StreamAlloc(p *Prog, r *Report) {
 		}
 		for _, lit := range lits {
 			okS := false
-			if ex, ok := lit["stream"].(*ssa.Extract); ok && ex.Index == 0 {
+			streamFld, reqFld, connFld := "stream", "request", "conn"
+			if f := p.fieldByType("proxycore", "requestSender", func(t types.Type) bool { b, ok := t.Underlying().(*types.Basic); return ok && b.Kind() == types.Int16 }); f != nil {
+				streamFld = f.Name()
+			}
+			if f := p.fieldByType("proxycore", "requestSender", func(t types.Type) bool { return typeIs(t, "proxycore", "Request") }); f != nil {
+				reqFld = f.Name()
+			}
+			if f := p.fieldByType("proxycore", "requestSender", func(t types.Type) bool { return typeIs(t, "proxycore", "ClientConn") }); f != nil {
+				connFld = f.Name()
+			}
+			if ex, ok := lit[streamFld].(*ssa.Extract); ok && ex.Index == 0 {
 				if c, ok := ex.Tuple.(*ssa.Call); ok && c.Call.StaticCallee() == add && add != nil {
 					okS = true
 				}
@@ -273,10 +276,10 @@ func c02StreamAlloc(p *Prog, r *Report) {
 			if !okS {
 				bad = append(bad, "the sender's stream is not the id allocated by addToPending for this send")
 			}
-			if lit["request"] != ssa.Value(send.Params[1]) {
+			if lit[reqFld] != ssa.Value(send.Params[1]) {
 				bad = append(bad, "the sender does not carry the request that was registered")
 			}
-			if lit["conn"] != ssa.Value(send.Params[0]) {
+			if lit[connFld] != ssa.Value(send.Params[0]) {
 				bad = append(bad, "the sender is bound to another connection")
 			}
 		}
@@ -286,7 +289,7 @@ func c02StreamAlloc(p *Prog, r *Report) {
 			eachInstr(add, func(in ssa.Instruction) {
 				if ret, ok := in.(*ssa.Return); ok {
 					for _, o := range origins(ret.Results[0]) {
-						if c, ok := o.(*ssa.Call); ok && callIsMethod(c, "proxycore", "pendingRequests", "store") {
+						if c, ok := o.(*ssa.Call); ok && c.Call.StaticCallee() == getPendingRoles(p).store {
 							okRet = true
 						}
 					}
@@ -299,7 +302,7 @@ func c02StreamAlloc(p *Prog, r *Report) {
 			bad = append(bad, "addToPending not found")
 		}
 		// stores to requestSender.stream elsewhere
-		if sf := p.FieldOpt("proxycore", "requestSender", "stream"); sf != nil {
+		if sf := p.fieldByType("proxycore", "requestSender", func(t types.Type) bool { b, ok := t.Underlying().(*types.Basic); return ok && b.Kind() == types.Int16 }); sf != nil {
 			for _, acc := range fieldAccesses(p.ScopedFuncs("proxycore"), sf) {
 				if acc.Write {
 					if a, ok := acc.Base.(*ssa.Alloc); !ok || a.Parent() != send {
@@ -318,7 +321,7 @@ func c02StreamAlloc(p *Prog, r *Report) {
 func c02StreamAtWrite(p *Prog, r *Report, rule string) {
 	r.Rule(rule, "the backend stream id is stored into a Request's frame only by the sender object, in the function that encodes it for the connection's writer, from the sender's own allocated stream; no other code writes stream ids into Request frames")
 	streamIdF := p.Field("frame", "Header", "StreamId")
-	senderStream := p.FieldOpt("proxycore", "requestSender", "stream") // may be refactored away: then every store is judged by where it happens
+	senderStream := p.fieldByType("proxycore", "requestSender", func(t types.Type) bool { b, ok := t.Underlying().(*types.Basic); return ok && b.Kind() == types.Int16 }) // may be refactored away: then every store is judged by where it happens
 	fromRequestFrame := func(v ssa.Value) bool {
 		// header := frm.Header where frm derives from an invoke of Request.Frame()
 		for depth := 0; depth < 6; depth++ {
